@@ -519,7 +519,7 @@ class AttributeValue(EvaluationNode):
     @ensure_prefix
     def evaluate(self, node: NodeBase, context: EvaluationContext) -> Optional[str]:
         if not _is_node_of_type(node, "TagNode"):
-            return None
+            return ""
         node = cast("TagNode", node)
         result = node.attributes.get(
             (context.namespaces.get(self.prefix, ""), self.local_name)
